@@ -15,6 +15,7 @@
 package s3proxy
 
 import (
+	"bytes"
 	"context"
 	"crypto/sha256"
 	"encoding/base64"
@@ -750,6 +751,24 @@ func (s *S3Proxy) PutObject(ctx context.Context, input s3response.PutObjectInput
 		exp, err := time.Parse(time.RFC1123, *input.Expires)
 		if err == nil {
 			expire = &exp
+		}
+	}
+
+	// An empty object: the SDK takes a zero ContentLength with a stream it
+	// can not seek for "length unknown" and sends a chunked upload without
+	// the decoded length, which endpoints refuse (411). Hand it an empty
+	// seekable body instead. The request body is still read to its end, so
+	// that the checks made at the end of the stream are made.
+	if input.ContentLength != nil && *input.ContentLength == 0 && input.Body != nil {
+		var first [1]byte
+		n, err := io.ReadFull(input.Body, first[:])
+		if err != nil && !errors.Is(err, io.EOF) && !errors.Is(err, io.ErrUnexpectedEOF) {
+			return s3response.PutObjectOutput{}, err
+		}
+		if n == 0 {
+			input.Body = bytes.NewReader(nil)
+		} else {
+			input.Body = io.MultiReader(bytes.NewReader(first[:n]), input.Body)
 		}
 	}
 
